@@ -21,6 +21,73 @@ class Recorder:
         return len(self.inner)
 
 
+class Reiter:
+    """a re-iterable sampler / batch sampler backed by a generator (no list the loader could look into); `items` is
+    read again on every pass"""
+
+    def __init__(self, items):
+        self.items = items
+
+    def __iter__(self):
+        for x in self.items:
+            yield x
+
+    def __len__(self):
+        return len(self.items)
+
+
+class ReuseBatches:
+    """a batch sampler that owns ONE preallocated list and refills it for every batch (`buf.clear(); buf.extend(...);
+    yield buf`): every batch reaches the loader as the same list object with other contents"""
+
+    def __init__(self, batches):
+        self.batches, self.buf = batches, []
+
+    def __iter__(self):
+        for b in self.batches:
+            self.buf.clear()
+            self.buf.extend(b)
+            yield self.buf
+
+    def __len__(self):
+        return len(self.batches)
+
+
+SAMPLER_STYLES = ['list', 'list', 'tuple', 'tensor', 'tensor-int32', 'numpy', 'generator']
+BATCH_STYLES = ['lists', 'lists', 'reused-buffer', 'reused-buffer', 'generator', 'tuples', 'tensors', 'numpy']
+
+
+def styled_sampler(seq, style):
+    import numpy as np
+    if style == 'tuple':
+        return tuple(seq)
+    if style == 'tensor':
+        return torch.tensor(seq, dtype=torch.long)
+    if style == 'tensor-int32':
+        return torch.tensor(seq, dtype=torch.int32)
+    if style == 'numpy':
+        return np.asarray(seq, dtype=np.int64)
+    if style == 'generator':
+        return Reiter(list(seq))
+    return list(seq)
+
+
+def styled_batches(objs, style):
+    """`objs`: the list objects holding the batches (they may be refilled in place between epochs)"""
+    import numpy as np
+    if style == 'reused-buffer':
+        return ReuseBatches(objs)
+    if style == 'generator':
+        return Reiter(objs)
+    if style == 'tuples':
+        return [tuple(b) for b in objs]
+    if style == 'tensors':
+        return [torch.tensor(b, dtype=torch.long) for b in objs]
+    if style == 'numpy':
+        return [np.asarray(b, dtype=np.int64) for b in objs]
+    return objs
+
+
 def _raising_collate(batch):
     raise RuntimeError('user collate_fn must never be called')
 
@@ -31,7 +98,17 @@ class C10(frame.Findings, core.Check):
     driver = 'drv_c07'
     quick_cases = 3000
     thorough_cases = 24000
-    rule = ('hardening families: special values / float64 features / dict key orders of C07; a second epoch on the same '
+    rule = ('the source is a live object: frames whose tensors are non-contiguous views (column-sliced out of a wider '
+            'matrix, every other row of a table, transposed; target = a column of a table; ragged storage as strided '
+            'views) or fresh contiguous tensors, edited in place between constructing the loader and iterating it and '
+            'between epochs (single entries of dense / ragged / embedding / dict features and of the target written in '
+            'place, target or a feature group re-assigned; materialized frames of datasets edited by column name) - every '
+            'batch must equal selecting its rows from the source as it stands when the batch is drawn; sampler= given as '
+            'list / tuple / int64 or int32 tensor / numpy array / generator-backed iterable; batch_sampler= given as lists / '
+            'tuples / tensors / numpy arrays / generator / ONE preallocated list refilled for every batch (equal-length '
+            'consecutive batches included), the caller\'s batch lists refilled in place before the second epoch (incl. '
+            'full-batch permutations); targets of every legal kind (ragged MultiNestedTensor targets of frames and of '
+            'datasets with a sequence_numerical target: direct oracle only); hardening families: special values / float64 features / dict key orders of C07; a second epoch on the same '
             'loader (25%); scale (36 / 150 / 300 cases at stress level 0 / 1 / 2): frames with 17..259 / 4 099 rows (all-empty '
             'ragged rows), long cells, many columns, datasets with up to 259 / 1 027 rows, batch sizes from the ladder and '
             'around the row count, shuffled / explicit permutation samplers / explicit batch lists that are long structured '
@@ -48,6 +125,10 @@ class C10(frame.Findings, core.Check):
         '"an unmaterialized dataset serves the same rows as materializing it first" and "a user collate_fn cannot replace '
         'the collation" are properties of DataLoader.__init__ checked on the real objects only',
         'the source frame is left unchanged: snapshot before/after on the real objects',
+        'frames / datasets with a ragged (MultiNestedTensor) target are judged by the direct oracle only (the model target is '
+        '1-D); == is not defined for such frames, so a batch is compared with the selection by its canonical representation',
+        'in-place edits of the live source are an input history of the real objects; the model receives the frame as it '
+        'stands at every epoch',
     )
 
     N_SCALE = {0: 36, 1: 150, 2: 300}
@@ -83,16 +164,16 @@ class C10(frame.Findings, core.Check):
                     rows = case['dataset']['n']
                 else:
                     case['src'] = 'frame'
-                    case['frame'] = frame.gen_frame_scaled(rng, lv, scaled, rowid=True, pool='full')
+                    case['frame'] = frame.gen_frame_scaled(rng, lv, scaled, rowid=True, pool='full', ragged_y=True)
                     rows = case['frame']['R']
             elif i < n_heavy + n_scale + n_ds:
                 case['src'] = 'dataset'
-                case['dataset'] = frame.gen_dataset(rng)
+                case['dataset'] = frame.gen_dataset(rng, seq_target=True)
                 case['materialized'] = rng.random() < .4
                 rows = case['dataset']['n']
             else:
                 case['src'] = 'frame'
-                case['frame'] = frame.gen_frame(rng, rowid=True, allow_empty=False, pool='full')
+                case['frame'] = frame.gen_frame(rng, rowid=True, allow_empty=False, pool='full', ragged_y=True)
                 rows = case['frame']['R']
             u = rng.random()
             weights = frame.row_weights(case['frame']) if scaled and case['src'] == 'frame' else None
@@ -108,9 +189,10 @@ class C10(frame.Findings, core.Check):
                 if scaled == 'heavy':
                     case['bs'] = rng.choice([rows, rows + 1, max(rows - 1, 1), max(rows - rows // 8, 1)])
                 u = rng.choice([.1, .1, .4, .4, .4, .8, .8]) if u >= .6 else u   # shuffle / sampler / sequential only
-            if u < .33:
+            if u < .30:
                 case['shuffle'] = True
-            elif u < .5:
+            elif u < .46:
+                case['sampler_style'] = rng.choice(SAMPLER_STYLES)
                 if rows and rng.random() < .4:
                     perm = list(range(rows))
                     rng.shuffle(perm)
@@ -129,10 +211,17 @@ class C10(frame.Findings, core.Check):
                             case['sampler'] = [rng.randint(0, hi) for _ in range(k)]
                         else:
                             case['sampler'] = list(range(rows))
-            elif u < .6:
+            elif u < .62:
                 bs = []
                 for _ in range(rng.randint(0, 4)):
                     bs.append([rng.randrange(rows) for _ in range(rng.randint(0, 3))] if rows else [])
+                if rows and rng.random() < .5:
+                    # batches of one common size (a hand-written mini-batch loop), or full-batch training
+                    k = rng.choice([1, 2, 3, rows])
+                    bs = [[rng.randrange(rows) for _ in range(k)] for _ in range(rng.randint(1, 4))]
+                    if k == rows and rng.random() < .6:
+                        bs = [rng.sample(range(rows), rows)]
+                case['batch_style'] = rng.choice(BATCH_STYLES)
                 if scaled and rows:
                     # explicit batches with long structured index lists (runs, reversed, sorted with duplicates, ...)
                     bs = []
@@ -145,6 +234,11 @@ class C10(frame.Findings, core.Check):
                             ix = {'is': list(range(rows - 1, -1, -1))}
                         bs.append([i_ % rows for i_ in ix['is']])
                 case['batch_sampler'] = bs
+                if case['batch_style'] in ('lists', 'reused-buffer') and rng.random() < .5:
+                    # the caller refills / reshuffles the SAME list objects in place before the next epoch
+                    case['epochs'] = 2
+                    case['batches2'] = [rng.sample(b, len(b)) if rng.random() < .5 else [rng.randrange(rows) for _ in b]
+                                        for b in bs]
             elif u < .68:
                 case['bs'] = None
                 if rng.random() < .3:
@@ -153,13 +247,65 @@ class C10(frame.Findings, core.Check):
                     case['drop_last'] = False
             elif u < .72:
                 case['bs'] = 0
+            # the source is a live object: strided storage (column-sliced / transposed / every-other-row views) and
+            # in-place edits between constructing the loader and iterating it, and between epochs
+            if case['src'] == 'frame' and scaled in (None, 'rows', 'longcells') and rows <= 300:
+                if rng.random() < .3:
+                    case['storage'] = rng.randrange(10 ** 6)
+                if rng.random() < .3:
+                    if rng.random() < .5:
+                        case['epochs'] = 2
+                    case['edits'] = frame.gen_edits(rng, case['frame'], case['epochs'])
+                    if 'storage' not in case and rng.random() < .5:
+                        case['storage'] = rng.randrange(10 ** 6)
+            elif case['src'] == 'dataset' and rows <= 300 and rng.random() < .3:
+                if rng.random() < .5:
+                    case['epochs'] = 2
+                case['edits'] = self.gen_raw_edits(rng, case['dataset'], case['epochs'])
+            if case['src'] == 'frame' and not frame.model_expressible(case['frame']) or \
+                    case['src'] == 'dataset' and frame.dataset_ragged_target(case['dataset']):
+                case['oracle_only'] = True        # ragged target: the model's target is a 1-D tensor
             yield case
+
+    @staticmethod
+    def gen_raw_edits(rng, dspec, epochs):
+        """in-place edits of the materialized frame of a dataset (dense numerical / categorical entries, the target),
+        addressed by column name"""
+        edits = []
+        cols = [c for c in dspec['cols'] if c['stype'] in ('numerical', 'categorical') and c['name'] not in ('row_id', dspec['target'])]
+        tgt = [c for c in dspec['cols'] if c['name'] == dspec['target'] and c['stype'] in ('numerical', 'categorical')]
+        for when in range(epochs):
+            if rng.random() > .8:
+                continue
+            for _ in range(rng.randint(1, 3)):
+                if cols and rng.random() < .6:
+                    c = rng.choice(cols)
+                    edits.append({'kind': 'raw', 's': c['stype'], 'col': c['name'], 'r': rng.randrange(dspec['n']),
+                                  'v': rng.randint(0, 9), 'when': when})
+                elif tgt:
+                    edits.append({'kind': 'raw-y', 'r': rng.randrange(dspec['n']), 'v': rng.randint(0, 2), 'when': when})
+        return edits
+
+    @staticmethod
+    def apply_raw(tf, e):
+        from torch_frame import stype
+        if e['kind'] == 'raw-y':
+            tf.y[e['r']] = e['v']
+        else:
+            st = stype(e['s'])
+            tf.feat_dict[st][e['r'], tf.col_names_dict[st].index(e['col'])] = e['v']
+
+    @staticmethod
+    def epoch_batches(case, ep):
+        if case['batch_sampler'] is None:
+            return None
+        return case['batches2'] if ep >= 1 and case.get('batches2') is not None else case['batch_sampler']
 
     # -- real side -----------------------------------------------------------------------------------
     def source(self, case):
         """(object handed to DataLoader, the frame the rows must come from, reference of that frame or None)"""
         if case['src'] == 'frame':
-            tf = frame.build_real(case['frame'])
+            tf = frame.build_real(case['frame'], case.get('storage'))
             return tf, tf, frame.ref_of_spec(case['frame'])
         ds = frame.build_dataset(case['dataset'])
         mat = frame.build_dataset(case['dataset']).materialize().tensor_frame
@@ -186,12 +332,14 @@ class C10(frame.Findings, core.Check):
         n = len(mat)
         before = frame.frame_repr(mat)
         kw = {}
+        objs = None
         if case['batch_sampler'] is not None:
-            kw['batch_sampler'] = [list(b) for b in case['batch_sampler']]
+            objs = [list(b) for b in case['batch_sampler']]
+            kw['batch_sampler'] = styled_batches(objs, case.get('batch_style'))
         else:
             kw.update(batch_size=case['bs'], drop_last=case['drop_last'])
             if case['sampler'] is not None:
-                kw['sampler'] = list(case['sampler'])
+                kw['sampler'] = styled_sampler(case['sampler'], case.get('sampler_style'))
             else:
                 kw['shuffle'] = case['shuffle']
                 if case['shuffle']:
@@ -218,9 +366,25 @@ class C10(frame.Findings, core.Check):
         orders = self._orders[core.stable_hash(case)] = []
         out = {}
         # history on one object: a second epoch of the SAME loader is judged like the first one
+        cur_spec = case['frame'] if case['src'] == 'frame' else None
         for ep in range(case.get('epochs', 1)):
             if rec is not None:
                 rec.seen = []
+            # the live source is edited in place after the loader was constructed / between epochs
+            for e in case.get('edits') or []:
+                if e['when'] != ep:
+                    continue
+                if case['src'] == 'frame':
+                    frame.apply_edit(mat, cur_spec, e, case.get('storage'))
+                    cur_spec = frame.edit_spec(cur_spec, e)
+                    ref = frame.ref_of_spec(cur_spec)
+                else:
+                    self.apply_raw(src.tensor_frame, e)
+                    self.apply_raw(mat, e)
+                before = frame.frame_repr(mat)
+            if ep >= 1 and case.get('batches2') is not None:
+                for lst, new in zip(objs, case['batches2']):
+                    lst[:] = new          # the caller's list objects, refilled in place
             try:
                 batches = list(loader)
             except Exception as e:
@@ -230,7 +394,7 @@ class C10(frame.Findings, core.Check):
                     F.append(('loader/collate', 'the user-supplied collate_fn replaced the row-selection collation', None, None))
                 return 'collate-raises'
             if case['batch_sampler'] is not None:
-                order = [i for b in case['batch_sampler'] for i in b]
+                order = [i for b in self.epoch_batches(case, ep) for i in b]
             elif rec is not None:
                 order = list(rec.seen)
             else:
@@ -239,18 +403,18 @@ class C10(frame.Findings, core.Check):
             orders.append(list(order))
             ids = [self.row_ids(b) for b in batches]
             out['ok' if ep == 0 else 'ok2'] = {'batches': ids, 'frames': [frame.frame_repr(b) for b in batches]}
-            self.judge_epoch(case, loader, mat, ref, n, order, batches, ids)
+            self.judge_epoch(case, loader, mat, ref, n, order, batches, ids, self.epoch_batches(case, ep))
         if frame.frame_repr(mat) != before:
             F.append(('loader/mutates', 'iterating the loader modified the source frame', None, None))
         return out
 
-    def judge_epoch(self, case, loader, mat, ref, n, order, batches, ids):
+    def judge_epoch(self, case, loader, mat, ref, n, order, batches, ids, given=None):
         """direct oracle on the property text for one epoch"""
         F = self._findings
         bs, dl = case['bs'], case['drop_last']
         flat = [i for b in ids for i in b]
         if case['batch_sampler'] is not None:
-            if ids != [list(b) for b in case['batch_sampler']]:
+            if ids != [list(b) for b in given]:
                 F.append(('loader/batch-sampler', 'batches differ from the explicit batch sampler', None, None))
         else:
             if case['sampler'] is None:
@@ -281,37 +445,63 @@ class C10(frame.Findings, core.Check):
                 pass
         for b, bid in zip(batches, ids):
             sel = mat[list(bid)] if bid else mat[[]]
-            if not (b == sel) and not self._nan_y(b):
-                F.append(('loader/batch', 'a batch is not equal to selecting its rows from the source frame', None, bid[:50]))
+            if isinstance(sel.y, frame.MNT) or isinstance(b.y, frame.MNT):
+                # == is not defined for a ragged target: the batch must be the same frame as the selection
+                same = frame.frame_repr(b) == frame.frame_repr(sel)
+            else:
+                try:
+                    same = bool(b == sel) or self._nan_y(b)
+                except Exception:
+                    same = False          # e.g. the batch's target has another dtype than the source's
+            fam, note = '', ''
+            if case.get('edits'):
+                fam, note = '/source-edited-in-place', ' (as it stands when the batch is drawn: the source was edited ' \
+                    'in place after the loader was constructed / between epochs)'
+            elif case.get('batch_style') == 'reused-buffer' or case.get('batches2') is not None:
+                fam, note = '/index-object-reused', ' (the batch sampler hands over the same list object again with other contents)'
+            if not same:
+                F.append(('loader/batch' + fam, 'a batch is not equal to selecting its rows from the source frame' + note,
+                          None, bid[:50]))
                 break
             if ref is not None:
                 bad = frame.compare_to_ref(b, frame.ref_select(ref, {'t': 'list', 'is': list(bid)}))
                 if bad is not None:
-                    F.append(('loader/batch', f'a batch differs from the nested-list rows: {bad}', None, bid[:50]))
+                    F.append(('loader/batch' + fam, f'a batch differs from the nested-list rows{note}: {bad}', None, bid[:50]))
                     break
 
     @staticmethod
     def _nan_y(tf):
-        return tf.y is not None and tf.y.is_floating_point() and bool(torch.isnan(tf.y).any())
+        return tf.y is not None and not isinstance(tf.y, frame.MNT) and tf.y.is_floating_point() and bool(torch.isnan(tf.y).any())
 
     # -- model side ----------------------------------------------------------------------------------
     def model_requests(self, case):
         if case.get('oracle_only'):
             return []
+        orders = getattr(self, '_orders', {}).get(core.stable_hash(case)) or []
+        edits = case.get('edits') or []
         if case['src'] == 'frame':
-            fr = frame.model_frame(case['frame'])
+            frs = [frame.model_frame(frame.spec_at(case['frame'], edits, ep)) if ep == 0 or any(e['when'] == ep for e in edits)
+                   else None for ep in range(max(len(orders), 1))]
             n = case['frame']['R']
         else:
-            fr = frame.frame_repr(frame.build_dataset(case['dataset']).materialize().tensor_frame)
+            twin = frame.build_dataset(case['dataset']).materialize().tensor_frame
+            frs = []
+            for ep in range(max(len(orders), 1)):
+                for e in edits:
+                    if e['when'] == ep:
+                        self.apply_raw(twin, e)
+                frs.append(frame.frame_repr(twin) if ep == 0 or any(e['when'] == ep for e in edits) else None)
             n = case['dataset']['n']
-        orders = getattr(self, '_orders', {}).get(core.stable_hash(case)) or []
+        for ep in range(1, len(frs)):
+            if frs[ep] is None:
+                frs[ep] = frs[ep - 1]
         dflt = list(case['sampler']) if case['sampler'] is not None else list(range(n))
         reqs = []
         for ep in range(max(len(orders), 1)):
             rq = {'cmd': 'epoch', 'order': orders[ep] if ep < len(orders) else dflt, 'bs': case['bs'],
-                  'drop_last': case['drop_last'], 'batches': case['batch_sampler'],
+                  'drop_last': case['drop_last'], 'batches': self.epoch_batches(case, ep),
                   'shuffle': bool(case['shuffle'] and case['sampler'] is None and case['batch_sampler'] is None)}
-            rq['frame'] = fr
+            rq['frame'] = frs[ep]
             reqs.append(rq)
         return reqs
 
@@ -350,6 +540,22 @@ class C10(frame.Findings, core.Check):
         labs.append(f"mode:{mode}:{out if isinstance(out, str) else 'ok'}")
         if case.get('scaled'):
             labs.append(f"scale:{case['scaled']}:{mode}")
+        if case.get('storage') is not None:
+            labs.append('storage:strided-views')
+        for e in case.get('edits') or []:
+            labs.append(f"source-edited:{e['kind']}:{'after-construction' if e['when'] == 0 else 'between-epochs'}"
+                        + (':strided' if case.get('storage') is not None else ':contiguous'))
+        if case.get('sampler_style') and case['sampler'] is not None:
+            labs.append(f"sampler-container:{case['sampler_style']}")
+        if case['batch_sampler'] is not None:
+            labs.append(f"batch-sampler-container:{case.get('batch_style', 'lists')}")
+            if case.get('batches2') is not None:
+                labs.append('batch-lists-refilled-in-place-between-epochs')
+            lens = [len(b) for b in case['batch_sampler']]
+            if case.get('batch_style') == 'reused-buffer' and any(a == b and a for a, b in zip(lens, lens[1:])):
+                labs.append('reused-buffer:consecutive-batches-of-equal-length')
+        if case.get('oracle_only') and not case.get('scaled') == 'huge':
+            labs.append('target:ragged(oracle-only)')
         if n >= 257:
             labs.append('scale:rows>=257' if n < 1025 else 'scale:rows>=1025' if n < 16385 else 'scale:rows>=16385(oracle-only)')
         if isinstance(out, dict):
